@@ -27,7 +27,8 @@ theorem C13_never_panics (o : Orc) (opts : Opts) (t : Tree) : ∀ s, build o opt
       cases this
 
 /-- **C13, part 2: what every accepted DAG satisfies** — all steps and handlers named and with something to
-    execute, valid stop signals, schedules that parse; the status serialisable; preconditions safe to evaluate. -/
+    execute; every STORED stop-signal name is empty or one `unix.SignalNum` resolves (the call the stop path makes
+    on the stored name); schedules that parse; the status serialisable; preconditions safe to evaluate. -/
 theorem C13_accepted (o : Orc) (opts : Opts) (t : Tree) (d : Dag) (h : build o opts t = .ok d) :
     d.wellFormed o ∧ d.serialisable ∧ d.evalSafe := by
   have key : ∀ df, buildDef o opts df = .ok d → d.wellFormed o ∧ d.serialisable ∧ d.evalSafe := by
@@ -87,6 +88,18 @@ example : okAnd (build orc {} (stepWith [(.str (S "command"), .str (S "true")),
 example : isErr (build orc {} (stepWith [(.str (S "command"), .str (S "true")),
       (.str (S "executor"), .map [(.str (S "type"), .str (S "docker")),
         (.str (S "config"), .map [(.str (S "x"), .list [.float false])])])])) = true := by decide
+
+/-! stop signals: `parseMiscs` validates and stores the SAME string, so only spellings `unix.SignalNum` knows are
+    accepted and the stored name is the one the stop path resolves (`C13_accepted`: `s.signal = [] ∨ o.sigOk s.signal`) -/
+def orcSig : Orc := { cronOk := fun _ => true, sigOk := fun s => s == S "SIGINT" || s == S "SIGUSR1" }
+example : okAnd (build orcSig {} (stepWith [(.str (S "command"), .str (S "true")), (.str (S "signalOnStop"), .str (S "SIGINT"))]))
+    (fun d => d.allSteps.all (fun s => s.signal == S "SIGINT")) = true := by decide
+example : isErr (build orcSig {} (stepWith [(.str (S "command"), .str (S "true")), (.str (S "signalOnStop"), .str (S "sigint"))])) = true := by decide
+example : isErr (build orcSig {} (stepWith [(.str (S "command"), .str (S "true")), (.str (S "signalOnStop"), .str (S "INT"))])) = true := by decide
+example : isErr (build orcSig {} (stepWith [(.str (S "command"), .str (S "true")), (.str (S "signalOnStop"), .str (S " SIGINT "))])) = true := by decide
+example : isErr (build orcSig {} (stepWith [(.str (S "command"), .str (S "true")), (.str (S "signalOnStop"), .str [])])) = true := by decide
+/-- handlers too -/
+example : isErr (build orcSig {} (doc [(.str (S "handlerOn"), .map [(.str (S "cancel"), .map [(.str (S "command"), .str (S "true")), (.str (S "signalOnStop"), .str (S "usr1"))])])])) = true := by decide
 
 /-! non-vacuity: an accepted definition with schedule map, handler and function call -/
 def good : Tree := .map [
